@@ -74,6 +74,12 @@ func (c *PushedAuthorizeHandler) HandlePushedAuthorizeEndpointRequest(ctx contex
 	requestURI := fmt.Sprintf("%s%s", configProvider.GetPushedAuthorizeRequestURIPrefix(ctx), b64.EncodeToString(stateKey))
 
 	// store
+	// The client was authenticated when the request was parsed. Its credentials are not part of the
+	// authorization request and must not be persisted with it.
+	for _, credential := range []string{"client_secret", "client_assertion", "client_assertion_type"} {
+		ar.GetRequestForm().Del(credential)
+	}
+
 	if err = storage.CreatePARSession(ctx, requestURI, ar); err != nil {
 		return errorsx.WithStack(fosite.ErrServerError.WithHint("Unable to store the PAR session").WithWrap(err).WithDebug(err.Error()))
 	}
